@@ -147,6 +147,11 @@ SBuf::rawAppendFinish(const char *start, size_type actualSize)
     Must(store_->canAppend(off_ + len_, actualSize));
     debugs(24, 8, id << " finish appending " << actualSize << " bytes");
 
+    // canAppend() accepts any offset when nothing is appended; our end is then
+    // not necessarily the end of the (possibly shared) blob's used area
+    if (!actualSize)
+        return;
+
     size_type newSize = length() + actualSize;
     Must3(newSize <= min(maxSize, store_->capacity-off_), "raw append fits", Here());
     len_ = newSize;
